@@ -72,7 +72,7 @@ func main() {
 	t0 = time.Now()
 
 	// ---- (b) real clusters ----
-	rounds := r.Pick(20, 10) // thorough: per shard
+	rounds := r.Pick(20, 16) // thorough: per shard
 	ks := []int{2, 8, 32}
 	vias := []string{"direct", "grpc", "mixed"}
 	// rounds are independent (own cluster, own PRNG derived from seed and round number); a few run
